@@ -10,13 +10,15 @@ for d in $dirs; do
   git -C /repo archive HEAD | tar -x -C "$scratch"
   if ! (cd "$scratch" && patch -p1 -s < "$OLDPWD/$d/patch.diff"); then echo "$d: patch failed"; rm -rf "$scratch"; continue; fi
   det=""; sigs=""
-  for i in 01 02 03 04 05 06 07 08 09 10 11 12 13 14 15 16 17 18 19 20; do
+  # MATRIX_MODE=target: only the check of the property the change was written for (recorded under "<tier>-target")
+  if [ "$MATRIX_MODE" = "target" ]; then props=$(basename $d | cut -c2-3); else props="01 02 03 04 05 06 07 08 09 10 11 12 13 14 15 16 17 18 19 20"; fi
+  for i in $props; do
     out=$(VERIF_REPO="$scratch" VERIF_OUT="$scratch/_verif_out" ./check C$i --tier $tier 2>&1); r=$?
     if [ $r -eq 1 ]; then det="$det C$i"; sigs="$sigs$(echo "$out" | grep 'sig=' | sed 's/ occurrences.*//; s/^ *sig=//' | head -4 | tr '\n' ';')";
     elif [ $r -ne 0 ]; then det="$det C$i(harness-error)"; fi
   done
   echo "$d DETECTED_BY:$det"
-  python3 - "$d" "$tier" "$det" "$sigs" <<'PY'
+  python3 - "$d" "$tier${MATRIX_MODE:+-$MATRIX_MODE}" "$det" "$sigs" <<'PY'
 import json, sys
 d, tier, det, sigs = sys.argv[1:5]
 p = d + "/meta.json"
